@@ -325,7 +325,59 @@ def into_contract(w, C, PROP, by):
     )
 
 
-def build(w):
+VARIANTS = [None, 'wide']
+
+
+def wide_send(w, items):
+    """send_bytes of a bytes-like object whose items are wider than one byte (array.array('i'), ctypes arrays, cast
+    memoryviews): offset and size count *bytes* of the object's content; len() of its memoryview counts items, which is
+    why the function re-wraps it before measuring.  Model: WArr (nitems, item size > 1, nbytes > nitems, byte content);
+    memoryview(WArr) has its item size and len() = nitems, bytes() of it is the content."""
+    from pyvc.shapes import SBytes
+    by = {c.qualname: c for c in items if isinstance(c, Contract)}
+    pub = by['connection._ConnectionBase.send_bytes']
+    w.cls('WArr', fields={'arr': MapS(IntS, IntS), 'nbytes': IntS, 'nitems': IntS, 'itemsize': IntS})
+
+    def no_item_slices(ex, args, kw):
+        raise Unsupported('item-wise slice of a wide memoryview')
+    w.cls('WMV', fields={'of': ref('WArr'), 'itemsize': IntS}, methods={
+        '__len__': lambda ex, a, k: ex.path.read_field(ex.path.read_field(a[0], 'of'), 'nitems'),
+        '__getslice__': no_item_slices})
+
+    def content(ex, b):
+        return SBytes(ex.path.read_field(b, 'arr').comps[0], z3.IntVal(0), ex.path.read_field(b, 'nbytes').e)
+    w.spec_funcs['content'] = content
+
+    def ext_mv(ex, args, kw):
+        b = args[0]
+        if isinstance(b, SRef) and b.shape.cls == 'WArr':
+            o = SRef(ref('WMV'), ex.path.new_id('WMV'))
+            ex.path.write_field(o, 'of', b)
+            ex.path.write_field(o, 'itemsize', ex.path.read_field(b, 'itemsize'))
+            return o
+        return b
+
+    def ext_bytes(ex, args, kw):
+        b = args[0]
+        if isinstance(b, SRef) and b.shape.cls == 'WMV':
+            return content(ex, ex.path.read_field(b, 'of'))
+        return b
+    sub = lambda t: t.replace('buf[offset:', 'content(buf)[offset:').replace('len(buf)', 'buf.nbytes')
+    return Contract(
+        pub.qualname, prop=PROP, variants=['wide'],
+        params={'self': pub.params['self'], 'buf': ref('WArr'), 'offset': IntS, 'size': opt(IntS)},
+        externals={'builtins.memoryview': ext_mv, 'builtins.bytes': ext_bytes},
+        requires={'wf': 'buf.nbytes >= 0 and g.wlen >= 0 and buf.itemsize > 1 and buf.nitems >= 0 and '
+                        '(buf.nitems < buf.nbytes or buf.nbytes == 0) and buf.nitems <= buf.nbytes'},
+        modifies=list(pub.modifies),
+        ensures={k: sub(v) for k, v in pub.ensures.items()},
+        raises={e: {k: sub(v) for k, v in d.items()} for e, d in pub.raises.items()},
+    )
+
+
+def build(w, variant=None):
+    if variant == 'wide':
+        return [wide_send(w, build(w))]
     w.cls('g', fields={'wire': MapS(IntS, IntS), 'wlen': IntS, 'stream': MapS(IntS, IntS),
                        'rpos': IntS, 'send': IntS})
     w.cls('BytesIO', fields={'arr': MapS(IntS, IntS), 'len': IntS, 'pos': IntS},
